@@ -58,7 +58,7 @@ def oTime : Obs → Option Nat
 theorem connLife_spec (c : Cfg) (s : St) (o : Outcome) :
     ∃ evs, (connLife c s o).1.log = s.log ++ evs ∧ evs.all (fun e => !isAtt e) = true ∧
       ((connLife c s o).1.disconnected = false → s.disconnected = false ∧ evs.all (fun e => !isUD e) = true) ∧
-      ((∀ t, o ≠ .downgrade t) → (∀ d, o ≠ .refuse d) →
+      ((∀ t, o ≠ .downgrade t) → (∀ d, o ≠ .refuse d) → o ≠ .preDisc →
         ∃ e, evs.getLast? = some e ∧ isAtt e = false ∧ oTime e = some (connLife c s o).1.now) := by
   cases o with
   | refuse d => exact ⟨[], by simp [connLife]⟩
@@ -73,6 +73,7 @@ theorem connLife_spec (c : Cfg) (s : St) (o : Outcome) :
     by_cases hq : s.proto = 5 ∧ sd.isSome = true ∧ life = 0 <;>
       cases b <;> cases e <;> simp [connLife, St.emit, isAtt, isUD, oTime, hq]
   | downgrade t => exact ⟨[], by simp [connLife]⟩
+  | preDisc => exact ⟨[], by simp [connLife]⟩
 
 /-! ### state projections -/
 
@@ -132,6 +133,7 @@ theorem rw_log_gen (c : Cfg) (s : St) (w : Bool) :
 def IsConn : Outcome → Prop
   | .refuse _ => False
   | .downgrade _ => False
+  | .preDisc => False
   | _ => True
 
 theorem run_conn (c : Cfg) (fuel : Nat) (o : Outcome) (rest : List Outcome) (first : Bool) (s : St) (ho : IsConn o) :
@@ -156,10 +158,17 @@ theorem run_downgrade (c : Cfg) (fuel : Nat) (t : Nat) (rest : List Outcome) (fi
     run c (fuel + 1) (.downgrade t :: rest) first s =
       (if s.proto = 4 ∧ c.rof then
         let s1 : St := { s.emit (.attempt s.now true) with now := s.now + t, proto := 3 }
-        run c fuel rest false s1
+        match rest with
+        | .preDisc :: _ => (({ s1 with disconnected := true } : St).emit (.userDisconnect s1.now)).emit (.ret 4)
+        | _ => run c fuel rest false s1
       else if s.proto = 4 then
         (({ s.emit (.attempt s.now true) with now := s.now + t } : St).emit (.onDisconnect 2 (s.now + t))).emit (.ret 2)
       else run c fuel (.connackRefused 1 t {} :: rest) first s) := rfl
+
+theorem run_preDisc (c : Cfg) (fuel : Nat) (rest : List Outcome) (first : Bool) (s : St) :
+    run c (fuel + 1) (.preDisc :: rest) first s =
+      (({ s with disconnected := true } : St).emit (.userDisconnect s.now)).emit (.ret 7) := by
+  simp [run]
 
 theorem run_zero (c : Cfg) (script : List Outcome) (first : Bool) (s : St) :
     run c 0 script first s = s.emit .scriptEnd := by
@@ -262,14 +271,22 @@ theorem run_struct (c : Cfg) (fuel : Nat) : ∀ (script : List Outcome) (first :
           rw [run_downgrade]
           split
           · simp only []
-            have := ih rest false { s.emit (.attempt s.now true) with now := s.now + t, proto := 3 } (by simpa using hs)
-            refine Struct.step [.attempt s.now true] ?_ (by simp [isUD])
-            simpa using this
+            split
+            · have := Struct.close s.log [.attempt s.now true] [.userDisconnect (s.now + t)] (.ret 4)
+                (by simp [isUD]) (by simp [isAtt]) rfl
+              simpa using this
+            · have := ih rest false { s.emit (.attempt s.now true) with now := s.now + t, proto := 3 } (by simpa using hs)
+              refine Struct.step [.attempt s.now true] ?_ (by simp [isUD])
+              simpa using this
           · split
             · have := Struct.close s.log [.attempt s.now true, .onDisconnect 2 (s.now + t)] [] (.ret 2)
                 (by simp [isUD]) (by simp) rfl
               simpa using this
             · exact ih _ first s hs
+        | preDisc =>
+          rw [run_preDisc]
+          have := Struct.close s.log [] [.userDisconnect s.now] (.ret 7) (by simp) (by simp [isAtt]) rfl
+          simpa using this
         | _ => exact (ho trivial).elim
 
 
@@ -366,6 +383,7 @@ theorem connLife_delay_other (c : Cfg) (s : St) (o : Outcome) (h : ∀ t l d, o 
   | accepted t l d => exact (h t l d rfl).elim
   | refuse d => rfl
   | downgrade t => rfl
+  | preDisc => rfl
   | eof t d =>
     obtain ⟨a, b, e⟩ := d
     cases e <;> simp [connLife, St.emit]
@@ -379,7 +397,7 @@ theorem connLife_reg (c : Cfg) (s : St) (o : Outcome) (h : RegOK c s.delay) : Re
     rw [connLife_delay_accepted]; intro x hx; cases hx
   · rw [connLife_delay_other c s o (by intro t l d he; exact ha ⟨t, l, d, he⟩)]; exact h
 
-theorem IsConn.ne (o : Outcome) (h : IsConn o) : (∀ t, o ≠ .downgrade t) ∧ (∀ d, o ≠ .refuse d) := by
+theorem IsConn.ne (o : Outcome) (h : IsConn o) : (∀ t, o ≠ .downgrade t) ∧ (∀ d, o ≠ .refuse d) ∧ o ≠ .preDisc := by
   cases o <;> simp_all [IsConn]
 
 theorem run_gap (c : Cfg) (hc : 1 ≤ c.minDelay ∧ c.minDelay ≤ c.maxDelay) (fuel : Nat) :
@@ -399,7 +417,7 @@ theorem run_gap (c : Cfg) (hc : 1 ≤ c.minDelay ∧ c.minDelay ≤ c.maxDelay) 
       · rw [run_conn _ _ _ _ _ _ ho]
         obtain ⟨evs, hlog, hatt, hdisc, hlast⟩ := connLife_spec c (s.emit (.attempt s.now true)) o
         have hreg' := connLife_reg c (s.emit (.attempt s.now true)) o hreg
-        obtain ⟨e, hel, hea, het⟩ := hlast ho.ne.1 ho.ne.2
+        obtain ⟨e, hel, hea, het⟩ := hlast ho.ne.1 ho.ne.2.1 ho.ne.2.2
         generalize connLife c (s.emit (.attempt s.now true)) o = r at *
         have hg1 : GapOK c r.1.log := by
           rw [hlog]; exact (hg.snoc_att _ _ hl).append_noatt _ hatt
@@ -466,11 +484,18 @@ theorem run_gap (c : Cfg) (hc : 1 ≤ c.minDelay ∧ c.minDelay ≤ c.maxDelay) 
           have hg1 : GapOK c (s.log ++ [.attempt s.now true]) := hg.snoc_att _ _ hl
           split
           · simp only []
-            exact ih rest false { s.emit (.attempt s.now true) with now := s.now + t, proto := 3 } (by simpa using hs)
-              hreg hg1 (LastOK.of_att _ _ _ _ _)
+            split
+            · simp only [emit_log]
+              exact (hg1.append_noatt [_] (by simp [isAtt])).append_noatt [_] (by simp [isAtt])
+            · exact ih rest false { s.emit (.attempt s.now true) with now := s.now + t, proto := 3 } (by simpa using hs)
+                hreg hg1 (LastOK.of_att _ _ _ _ _)
           · split
             · exact (hg1.append_noatt [_] (by simp [isAtt])).append_noatt [_] (by simp [isAtt])
             · exact ih _ first s hs hreg hg hl
+        | preDisc =>
+          rw [run_preDisc]
+          simp only [emit_log]
+          exact (hg.append_noatt [_] (by simp [isAtt])).append_noatt [_] (by simp [isAtt])
         | _ => exact (ho trivial).elim
 
 
@@ -519,11 +544,16 @@ theorem run_log_mono (c : Cfg) (fuel : Nat) : ∀ (script : List Outcome) (first
           rw [run_downgrade]
           split
           · simp only []
-            obtain ⟨evs', h⟩ := ih rest false { s.emit (.attempt s.now true) with now := s.now + t, proto := 3 }
-            exact ⟨_, by rw [h]; simp; rfl⟩
+            split
+            · exact ⟨_, by simp; rfl⟩
+            · obtain ⟨evs', h⟩ := ih rest false { s.emit (.attempt s.now true) with now := s.now + t, proto := 3 }
+              exact ⟨_, by rw [h]; simp; rfl⟩
           · split
             · exact ⟨_, by simp; rfl⟩
             · exact ih _ first s
+        | preDisc =>
+          rw [run_preDisc]
+          exact ⟨_, by simp; rfl⟩
         | _ => exact (ho trivial).elim
 
 
@@ -565,6 +595,9 @@ theorem run_norof_step (c : Cfg) (h : c.rof = false) (fuel : Nat) (o : Outcome) 
       rw [run_downgrade]
       simp only [h, ho t rfl, Bool.false_eq_true, and_false, if_false, if_true]
       exact ⟨[.attempt s.now true, .onDisconnect 2 (s.now + t), .ret 2], by simp, Nat.le_refl 1, ⟨_, rfl, rfl⟩⟩
+    | preDisc =>
+      rw [run_preDisc]
+      exact ⟨[.userDisconnect s.now, .ret 7], by simp, by simp [isAtt], ⟨_, rfl, rfl⟩⟩
     | _ => exact (hc trivial).elim
 
 theorem run_norof (c : Cfg) (h : c.rof = false) (fuel : Nat) (o : Outcome) (rest : List Outcome) (first : Bool)
@@ -584,6 +617,7 @@ theorem connLife_no_raised (c : Cfg) (s : St) (o : Outcome) (h : Obs.raised ∉ 
   cases o with
   | refuse d => exact h
   | downgrade t => exact h
+  | preDisc => exact h
   | eof t d =>
     obtain ⟨a, b, e⟩ := d
     cases e <;> simp [connLife, St.emit, h]
@@ -633,10 +667,16 @@ theorem run_no_raised (c : Cfg) (fuel : Nat) : ∀ (script : List Outcome) (firs
         | downgrade t =>
           rw [run_downgrade]
           split
-          · exact ih rest false _ (.inl rfl) (by simp [h])
+          · simp only []
+            split
+            · simp [h]
+            · exact ih rest false _ (.inl rfl) (by simp [h])
           · split
             · simp [h]
             · exact ih _ first s hf h
+        | preDisc =>
+          rw [run_preDisc]
+          simp [h]
         | _ => exact (ho trivial).elim
 
 end Paho.LFLemmas
